@@ -51,10 +51,16 @@ func parseAccCall(raw json.RawMessage) (accCall, error) {
 	return c, json.Unmarshal(parts[1], &c.Bad)
 }
 
-func labels(ids []int) tensor.Tensor {
+func labels(ids []int) tensor.Tensor { return labelsZ(ids, false) }
+
+// labelsZ: with negZero the label whose value is 0 is written as -0.0 (the same number: it must still match +0.0)
+func labelsZ(ids []int, negZero bool) tensor.Tensor {
 	v := make([]float64, len(ids))
 	for i, id := range ids {
 		v[i] = labelValue[id]
+		if negZero && v[i] == 0 {
+			v[i] = math.Copysign(0, -1)
+		}
 	}
 	t, _ := bind.New([]int{len(ids)}, v, false)
 	return t
@@ -77,7 +83,7 @@ func accExec(calls []accCall) (float64, string) {
 		}
 		switch c.Kind {
 		case "acc":
-			yp, yt := labels(c.P), labels(c.T)
+			yp, yt := labels(c.P), labelsZ(c.T, i%3 == 1)
 			if fmt.Sprint(c.P) == fmt.Sprint(c.T) && i%2 == 0 {
 				yt = yp // equal batches: every other time the very same tensor object in both slots
 			}
